@@ -164,6 +164,11 @@ HARNESSES = [
                    dict(Q, pre='if (a) if (b) c=1 ', post='\nd=2\n', k=1),
                    dict(Q, pre='if (a) ', post=' if (b) c=1 else e=3\nd=2\n',
                         k=1),
+                   # an operator (or anything else) between two operands,
+                   # with a blank, line end or comment on either side of it
+                   dict(Q, pre='x=a', post='b\nn=1\n', k=1),
+                   dict(Q, pre='while a', post='b do end', k=1,
+                        tail_gap=False),
                    dict(Q, pre='?', post='\nn=1\n', k=2),
                    dict(Q, pre='?x', post='n=1\n', k=1),
                    dict(Q, pre='if (n) ?x', post='n=1', k=1, tail_gap=False),
